@@ -25,6 +25,7 @@ import (
 	cons "github.com/gnolang/gno/tm2/pkg/bft/consensus"
 	cnscfg "github.com/gnolang/gno/tm2/pkg/bft/consensus/config"
 	cstypes "github.com/gnolang/gno/tm2/pkg/bft/consensus/types"
+	sm "github.com/gnolang/gno/tm2/pkg/bft/state"
 	"github.com/gnolang/gno/tm2/pkg/bft/types"
 	"github.com/gnolang/gno/tm2/pkg/crypto/ed25519"
 
@@ -129,6 +130,7 @@ type sim struct {
 	targetH    int64
 	stabHeight map[int]int64
 	crashPlan  []crashPlan
+	crashesFired int
 
 	// weights (depend on the property under check)
 	w weights
@@ -156,6 +158,18 @@ func (s *sim) schedule(at time.Duration, node int, fn func()) {
 func (s *sim) fail(prop, oracle, format string, args ...any) {
 	if s.only != nil && !s.only[prop] {
 		s.r.Probe("suppressed_" + prop + "_" + oracle)
+		return
+	}
+	v := kernel.Violation{Property: prop, Oracle: oracle, Signature: oracle, Msg: fmt.Sprintf(format, args...)}
+	if k := s.p.IsKnown(&v); k != nil {
+		// a committed known finding: recorded, the run goes on (or ends, for liveness) without a violation
+		for _, o := range s.r.Known {
+			if o.Property == prop && o.Oracle == oracle {
+				return
+			}
+		}
+		s.r.Known = append(s.r.Known, v)
+		s.event("KNOWN %s/%s", prop, oracle)
 		return
 	}
 	s.r.Fail(prop, oracle, format, args...)
@@ -746,6 +760,7 @@ func (s *sim) probeEvent(n *node, e any) {
 	case cstypes.EventLock:
 		r.Probe("lock")
 		s.or.lockEvents(n, x.HRS, "lock")
+		s.byz.onLock(n, x.HRS)
 	case cstypes.EventUnlock:
 		r.Probe("unlock")
 		s.or.lockEvents(n, x.HRS, "unlock")
@@ -1122,14 +1137,58 @@ func (s *sim) checkLiveness() {
 			continue
 		}
 		rs := n.cs.GetRoundState()
-		hs = append(hs, fmt.Sprintf("n%d:store=%d hrs=%d/%d/%d", n.id, n.bs.Height(), rs.Height, rs.Round, rs.Step))
+		pbp := "nil"
+		if rs.ProposalBlockParts != nil {
+			pbp = fmt.Sprintf("%v(%d)", rs.ProposalBlockParts.Header(), rs.ProposalBlockParts.Count())
+		}
+		hs = append(hs, fmt.Sprintf("n%d:store=%d hrs=%d/%d/%d commitRound=%d parts=%s locked=%d votes=%s", n.id, n.bs.Height(), rs.Height, rs.Round, rs.Step, rs.CommitRound, pbp, rs.LockedRound, strings.ReplaceAll(rs.Votes.StringIndented(""), "\n", " ")))
 	}
 	prop := "C31"
-	if len(s.crashPlan) > 0 {
+	if s.crashesFired > 0 {
 		prop = "C33"
 	}
-	s.fail(prop, "liveness", "after stabilisation at %v (faults stopped, byzantine silent) and then perfect gossip, honest nodes did not all reach height %d within 2x20 rounds of timeouts: %s",
+	oracle, why := s.classifyStall()
+	s.liveStage = 3
+	s.stop = true
+	s.fail(prop, oracle, why+"after stabilisation at %v (faults stopped, byzantine silent) and then perfect gossip, honest nodes did not all reach height %d within 2x20 rounds of timeouts: %s",
 		s.net.stabAt, s.liveGoal, strings.Join(hs, " "))
+}
+
+// classifyStall names the two stall patterns that were analysed as defects of the code under test
+// (NOTES.md, "findings"), so that they can be listed in KNOWN_FINDINGS without masking other stalls.
+func (s *sim) classifyStall() (oracle, why string) {
+	// (1) every proposer's LastCommit yields a median time that is not after the last block time
+	var top *node
+	for _, n := range s.nodes {
+		if n.up && (top == nil || n.bs.Height() > top.bs.Height()) {
+			top = n
+		}
+	}
+	if top != nil {
+		rs := top.cs.GetRoundState()
+		st := top.cs.GetState()
+		if rs.LastCommit != nil && rs.LastCommit.HasTwoThirdsMajority() && rs.Height == st.LastBlockHeight+1 {
+			mt := smMedian(rs.LastCommit.MakeCommit(), st.LastValidators)
+			if !mt.After(st.LastBlockTime) {
+				return "liveness_median_time_not_after_last_block", fmt.Sprintf("[every proposal for height %d is invalid: the weighted median %v of n%d's LastCommit (which includes stray nil precommits stamped with the wall clock) is not after the last block time %v, which runs ahead of the clock by TimeIota per block] ", rs.Height, mt, top.id, st.LastBlockTime)
+			}
+		}
+	}
+	// (2) a node left the Commit step (round skip on +2/3-any of a later round) and never finalises
+	for _, n := range s.nodes {
+		if !n.up {
+			continue
+		}
+		rs := n.cs.GetRoundState()
+		if rs.CommitRound >= 0 && rs.Step != cstypes.RoundStepCommit && n.bs.Height() < rs.Height {
+			if pc := rs.Votes.Precommits(rs.CommitRound); pc != nil {
+				if id, ok := pc.TwoThirdsMajority(); ok && !id.IsZero() {
+					return "liveness_wedged_after_leaving_commit_step", fmt.Sprintf("[n%d holds +2/3 precommits for %X at %d/%d (CommitRound set) but was moved out of RoundStepCommit to %d/%d/%d by +2/3-any votes of a later round; ProposalBlockParts was reset and nothing re-enters the commit] ", n.id, id.Hash, rs.Height, rs.CommitRound, rs.Height, rs.Round, rs.Step)
+				}
+			}
+		}
+	}
+	return "liveness", ""
 }
 
 func (s *sim) finish() {
@@ -1171,3 +1230,5 @@ func (s *sim) event(format string, args ...any) {
 		fmt.Fprintf(os.Stderr, "%10.3f #%d %s\n", s.now().Seconds(), s.steps, fmt.Sprintf(format, args...))
 	}
 }
+
+var smMedian = sm.MedianTime
